@@ -360,39 +360,47 @@ def _job(job):
 
 # ============================================================================ scheduled start/stop
 class _FakeListenSock:
-    """stands in for the TFTP listening socket in scheduled runs: never receives anything"""
+    """stands in for the TFTP listening socket in scheduled runs: never receives anything; once closed every
+    operation fails with EBADF like a real socket"""
     def __init__(self, registry):
         self.closed = False
         self.poison = False        # set after the run: makes a main loop that is still alive exit
         registry.append(self)
 
-    def setsockopt(self, *a):
-        pass
-
-    def settimeout(self, t):
-        pass
-
-    def bind(self, addr):
+    def _live(self):
         if self.closed:
             raise OSError(9, "Bad file descriptor")
 
+    def setsockopt(self, *a):
+        self._live()
+
+    def settimeout(self, t):
+        self._live()
+
+    def bind(self, addr):
+        self._live()
+
     def getsockname(self):
+        self._live()
         return ("::1", 69, 0, 0)
+
+    def fileno(self):
+        return -1 if self.closed else 7
 
     def recvmsg(self, *a):
         if self.poison:
             raise SystemExit()
-        if self.closed:
-            raise OSError(9, "Bad file descriptor")
+        self._live()
         raise real_socket.timeout()
 
     def recvfrom(self, *a):
-        if self.closed:
-            raise OSError(9, "Bad file descriptor")
+        if self.poison:
+            raise SystemExit()
+        self._live()
         raise real_socket.timeout()
 
     def sendto(self, *a):
-        pass
+        self._live()
 
     def close(self):
         self.closed = True
@@ -854,7 +862,7 @@ class C20(Check):
                         if a <= b:
                             small = len(a) + len(b) <= 2
                             yield {"kind": "conc", "srv": kind, "pre": pre, "ops": [a, b],
-                                   "bound": (2 if small and a != b else 1) if tier == "quick" else (3 if small and a != b else 2)}
+                                   "bound": (2 if small and a != b and pre else 1) if tier == "quick" else (3 if small and a != b else 2)}
                 for ops in ([[1], [0], [1]], [[0], [0], [1]], [[1], [0], [0]], [[1, 0], [0], [1]]):
                     yield {"kind": "conc", "srv": kind, "pre": pre, "ops": ops, "bound": 1 if tier == "quick" else 2}
                 yield {"kind": "conc", "srv": kind, "pre": pre, "ops": [[1], [0], [1], [0]],
